@@ -1083,6 +1083,148 @@ def check_sentinels(ctx):
                       'first' if half == 'first' else 'last', 'negative' if half == 'first' else 'non-negative'),
                   construct='sentinel:%s' % half, detail='%d guard edge(s), %d insertion(s)' % (len(cut_edges), len(cut_nodes)))
     ctx.minimum('C12-sentinel', 2)
+    return u, f, F, g, ins
+
+
+from ..expr import _member_fn_type, _is_const_method
+
+
+def _succ_closure(g, starts):
+    seen = set()
+    stack = list(starts)
+    while stack:
+        n = stack.pop()
+        for (m, _) in n.succs:
+            if m.id not in seen:
+                seen.add(m.id)
+                stack.append(m)
+    return seen
+
+
+def check_sentinel_types(ctx, rule):
+    """The inserted sentinel entries change nothing: the one put in front carries the type designated for times before
+    the first transition, the one appended carries the type of the entry that was last before it was appended."""
+    saved = len(ctx.obligations)
+    mins = dict(ctx.minimums)
+    u, f, F, g, ins = check_sentinels(ctx)
+    del ctx.obligations[saved:]
+    ctx.minimums.clear()
+    ctx.minimums.update(mins)
+    keys = Keys(u)
+    n = 0
+    for half in ('first', 'last'):
+        for a in ins[half]:
+            tgt = peel(kids(a)[0])
+            base = peel(kids(tgt)[0])
+            did = (base.get('referencedDecl') or {}).get('id')
+            d = u.by_id.get(did)
+            # the emplace call that creates the entry
+            emp = [x for x in walk(kids(d)[-1]) if x.get('kind') == 'CXXMemberCallExpr' and callee(x) and callee(x)[1] == 'emplace']
+            if len(emp) != 1:
+                ctx.unknown(rule, 'type of the %s sentinel' % half, a, 'the insertion that creates the sentinel entry is not a single emplace call',
+                            construct='sentinel-type:%s' % half)
+                continue
+            vec = keys.key(callee(emp[0])[2])
+            enodes = g.nodes_for(emp[0])
+            after = _succ_closure(g, enodes)
+            stores = [x for x in walk(f) if x.get('kind') == 'BinaryOperator' and x.get('opcode') == '=' and
+                      peel(kids(x)[0]).get('kind') == 'MemberExpr' and peel(kids(x)[0]).get('name') == 'type_index' and
+                      (peel(kids(peel(kids(x)[0]))[0]).get('referencedDecl') or {}).get('id') == did]
+            n += 1
+            if len(stores) != 1:
+                ctx.check(False, rule, 'the %s sentinel is given a type exactly once' % half, a,
+                          'the inserted entry keeps the value-initialised type 0 or is typed more than once (%d stores)' % len(stores),
+                          construct='sentinel-type:%s' % half)
+                continue
+            V = kids(stores[0])[1]
+            if half == 'first':
+                k = F.ident_key(V)
+                ctx.check(k == 'this.default_transition_type_', rule,
+                          'the entry put in front carries the type designated for times before the first transition', stores[0],
+                          'the sentinel inserted before the first transition has type %s instead of default_transition_type_: '
+                          'instants before the first recorded transition (or the sentinel itself) show another local-time type' % k,
+                          construct='sentinel-type:first', detail=k)
+                continue
+            # appended sentinel: find where the stored value is read from the table
+            verdict, why = _reads_last_before(u, f, g, keys, V, stores[0], vec, enodes, after)
+            ctx.check3(verdict, rule, 'the appended entry carries the type of the entry that was last before it', stores[0],
+                       'the sentinel appended at 2^31-1 is typed with %s: it is not a no-op continuation of the last recorded '
+                       'transition, so every instant from 2038 on shows another local-time type' % why,
+                       construct='sentinel-type:last', detail=why, unknown_why='the stored value is %s' % why)
+    ctx.check(n >= 2, rule, 'both sentinel insertions found', f, 'found %d' % n, construct='sentinel-type:n')
+    ctx.minimum(rule, 3)
+
+
+def _reads_last_before(u, f, g, keys, V, at, vec, enodes, after):
+    """(True, why) when V is the type_index of <vec>'s last element as it was before the emplace; (False, why) when it is
+    recognisably something else; (None, why) when not recognised."""
+    x = peel(V, explicit=True)
+    point = at
+    for _ in range(6):
+        if x.get('kind') == 'DeclRefExpr':
+            d = u.by_id.get((x.get('referencedDecl') or {}).get('id'))
+            if d is None or d.get('kind') != 'VarDecl' or not kids(d) or '&' in (qtype(d) or ''):
+                return None, 'read through %s' % keys.key(x)
+            # a value local: the read happened where it was initialised; it must not be reassigned
+            if any(y.get('kind') in ('BinaryOperator', 'CompoundAssignOperator') and y.get('opcode', '').endswith('=') and
+                   y.get('opcode') not in ('==', '!=', '<=', '>=') and
+                   (peel(kids(y)[0]).get('referencedDecl') or {}).get('id') == d['id'] for y in walk(f)):
+                return None, 'a reassigned local'
+            point = d
+            x = peel(kids(d)[-1], explicit=True)
+            continue
+        break
+    if x.get('kind') in ('IntegerLiteral',) or Folder(u).fold(x) is not None:
+        return False, 'the constant %s' % Folder(u).fold(x)
+    if x.get('kind') != 'MemberExpr' or x.get('name') != 'type_index':
+        k = keys.key(x)
+        if k.startswith('this.') and '(' not in k and '[' not in k:
+            return False, k
+        return None, k
+    el = peel(kids(x)[0], explicit=True)
+    bind_point = point
+    if el.get('kind') == 'DeclRefExpr':
+        d = u.by_id.get((el.get('referencedDecl') or {}).get('id'))
+        if d is not None and d.get('kind') == 'VarDecl' and kids(d) and '&' in (qtype(d) or ''):
+            bind_point = d
+            el = peel(kids(d)[-1], explicit=True)
+    ek = keys.key(el)
+    pn = set(n_.id for n_ in g.nodes_for(point))
+    bn = set(n_.id for n_ in g.nodes_for(bind_point))
+    if not pn or not bn:
+        return None, 'read at an unlocated point'
+    read_after = bool(pn & after) or bool(pn & set(n_.id for n_ in enodes) and point is at)
+    bind_after = bool(bn & after)
+    v = re.escape(vec)
+    is_back = bool(re.match(r'^(%s\.back\(\)|%s\[\(%s\.size\(\) - n:1\)\]|\*\(\(?%s\.end\(\) - n:1\)?\)|\*\(?%s\.rbegin\(\)\)?)$' % (v, v, v, v, v), ek))
+    is_prev = bool(re.match(r'^(%s\[\(%s\.size\(\) - n:2\)\]|\*\(\(?%s\.end\(\) - n:2\)?\))$' % (v, v, v), ek))
+    if not (is_back or is_prev):
+        if ek.startswith(vec):
+            return False, 'the type of %s' % ek
+        return None, 'the type of %s' % ek
+    if bind_after != read_after:
+        return False, 'a read through a reference into %s bound before the insertion (the insertion may reallocate)' % vec
+    if is_back and not read_after:
+        # no other change of the table between the read and the insertion
+        between = _succ_closure(g, g.nodes_for(bind_point)) - after - set(n_.id for n_ in enodes)
+        byid = {n_.id: n_ for n_ in g.live}
+        for nid in between:
+            a_ = byid[nid].ast if nid in byid else None
+            if a_ is None:
+                continue
+            for y in walk(a_):
+                if y.get('kind') == 'CXXMemberCallExpr' and callee(y) and (
+                        (callee(y)[2] is not None and keys.key(callee(y)[2]) == vec and
+                         callee(y)[1] in ('emplace', 'emplace_back', 'push_back', 'insert', 'erase', 'pop_back', 'resize', 'clear')) or
+                        (peel(callee(y)[2] or {}, explicit=False).get('kind') == 'CXXThisExpr' and
+                         not _is_const_method(_member_fn_type(y, peel(kids(y)[0], explicit=False))))):
+                    return None, 'the last entry read before another change of the table (%s)' % pos(y)
+        return True, '%s.type_index read before the insertion' % ek
+    if is_prev and read_after:
+        return True, '%s.type_index read after the insertion' % ek
+    if is_back and read_after:
+        return False, 'its own (value-initialised) type: %s read after the insertion is the new entry itself' % ek
+    return False, 'the type of the entry before the last one (%s read before the insertion)' % ek
 
 
 def run(ctx):
